@@ -16,6 +16,7 @@ func init() {
 	register(&Prop{ID: "C18", Run: runC18,
 		Technique: "static analysis: dominance guards of file-mutating calls, ordering / must-pass-through in the client, value-flow of paths (go/ssa)",
 		Decided: []string{
+			"the client's DeleteDAG gets a location read out of a lookup only when that lookup's error was nil (C18.delete-needs-location)",
 			"Create writes only under 'target does not exist' (C18.create-guard)",
 			"the DAG store's Rename tests the target before os.Rename (C18.rename-guard)",
 			"UpdateSpec writes only after LoadYAML(spec)==nil and 'file exists' (C18.validate-then-write)",
@@ -32,6 +33,7 @@ func runC18(e *Env) {
 	c18Guards(e)
 	c18Order(e)
 	c18RenameKeepsHistory(e)
+	c18DeleteNeedsLocation(e)
 	c18Footprint(e)
 	c06Isolation(e)
 }
